@@ -30,6 +30,8 @@ class Sim:
             except SimErr as e:
                 if t[3] is None:
                     raise
+                if t[3][0] == 'hthrow':  # the handler raises while it is evaluated
+                    raise SimErr(t[3][1])
                 return self.run(t[3])
             f = t[2]
             if f[0] == 'ignore': return self.run(f[1])
@@ -37,6 +39,8 @@ class Sim:
                 self.out += ">1\n"
                 return self.run(f[1])
             if f[0] == 'retarg': return v
+            if f[0] == 'throwing':       # the continuation raises while it is *evaluated*: after m ran, and
+                raise SimErr(f[1])       # outside the reach of this bind's own handler (which guards m only)
             raise ValueError(f)
         raise ValueError(k)
 
@@ -71,15 +75,21 @@ def rand_tree(rng, depth):
     # bind m f [h]: the continuation ignores / prints / returns its argument and then runs another tree
     me, mt = rand_tree(rng, depth - 1)
     ne, nt = rand_tree(rng, depth - 1)
-    use = rng.randrange(3)
-    if use == 0:      # ignore the value
+    use = rng.randrange(4)
+    if use == 3:      # the continuation fails while being evaluated (before any action exists)
+        n = rng.randint(10, 19)
+        fe, ff = fundef(raw(f"({enc(n)} ㄷㅂㅎㄴ ㄷㅈㅎㄴ)")), ('throwing', n)
+    elif use == 0:      # ignore the value
         fe, ff = fundef(ne), ('ignore', nt)
     elif use == 1:    # print the value's printed form, then continue
         fe = fundef(bi('ㄱㄹ', bi('ㅈㄹ', bi('ㄷ', str_lit(">"), bi('ㅁㅈ', bi('ㅈㄷ', bi('ㅁㄹ', arg(0)))))), fundef(ne)))
         ff = ('printthen', nt)
     else:             # return the value itself
         fe, ff = fundef(bi('ㄱㅅ', arg(0))), ('retarg',)
-    if rng.random() < 0.35:
+    if rng.random() < 0.45:
+        if rng.random() < 0.15:
+            n = rng.randint(20, 29)
+            return bi('ㄱㄹ', me, fe, fundef(raw(f"({enc(n)} ㄷㅂㅎㄴ ㄷㅈㅎㄴ)"))), ('bind', mt, ff, ('hthrow', n))
         he_, ht_ = rand_tree(rng, depth - 1)
         return bi('ㄱㄹ', me, fe, fundef(he_)), ('bind', mt, ff, ht_)
     return bi('ㄱㄹ', me, fe), ('bind', mt, ff, None)
